@@ -1,6 +1,9 @@
 // SimOS implementation + link-time wrappers (-Wl,--wrap=...) that route every syscall made
 // while inside a library call (and every simulated fd / path at any time) to the simulated OS.
 #include "simos.hpp"
+#include <dirent.h>
+#include <sys/stat.h>
+#include <set>
 #include <cerrno>
 #include <cstdarg>
 #include <cstdio>
@@ -102,9 +105,10 @@ int SimOS::open_fd (SimFileP f, int flags, bool by_lib)
 
 void SimOS::begin_op (int task, int op, const char *api, int64_t budget)
 {	cur_task = task ; cur_op = op ; cur_api = api ; op_io = 0 ; op_budget = fd_chunks.empty () ? budget : 0 ;
+	if (passthrough) pt_sync_out () ;
 	in_lib = true ;
 }
-void SimOS::end_op () { in_lib = false ; op_budget = 0 ; jmp_armed = false ; }
+void SimOS::end_op () { bool was = in_lib ; in_lib = false ; op_budget = 0 ; jmp_armed = false ; if (passthrough && was) pt_sync_in () ; }
 
 Fault *SimOS::io_event (int cls, bool vio)
 {	op_io ++ ; st.steps ++ ; st.by_class [cls] ++ ;
@@ -291,6 +295,83 @@ static inline bool in_lib () { return g_os && g_os->in_lib ; }
 static inline bool is_sim_path (const char *p) { return p && !strncmp (p, "/sim/", 5) ; }
 static inline bool is_sim_fd (int fd) { return fd >= 1000 || (fd == 0 && g_os && g_os->fd_zero) ; }
 
+static inline bool pt_on () { return g_os && g_os->passthrough && g_os->in_lib ; }
+static std::string pt_path (const char *path)
+{	std::string p = norm_path (path) ;
+	if (p.compare (0, 5, "/sim/") == 0) return g_os->pt_root + p.substr (4) ;
+	return p ;
+}
+
+static uint64_t pt_hash_bytes (const std::vector<uint8_t> &d)
+{	uint64_t h = 1469598103934665603ULL ^ d.size () ;
+	for (uint8_t b : d) { h ^= b ; h *= 1099511628211ULL ; }
+	return h ;
+}
+
+void SimOS::pt_sync_out ()
+{	bool save = in_lib ; in_lib = false ;
+	for (const char *dir : { "/cwd", "/tmp" }) { std::string d = pt_root + dir ; mkdir (pt_root.c_str (), 0755) ; mkdir (d.c_str (), 0755) ; }
+	for (auto &kv : ns)
+	{	if (kv.second->is_fifo || kv.first.compare (0, 5, "/sim/") != 0) continue ;
+		uint64_t h = pt_hash_bytes (kv.second->data) ;
+		auto it = pt_synced.find (kv.first) ;
+		if (it != pt_synced.end () && it->second == h) continue ;
+		std::string rp = pt_root + kv.first.substr (4) ;
+		int fd = __real_open (rp.c_str (), O_WRONLY | O_CREAT | O_TRUNC, 0644) ;
+		if (fd >= 0)
+		{	size_t off = 0 ; while (off < kv.second->data.size ()) { ssize_t w = __real_write (fd, kv.second->data.data () + off, kv.second->data.size () - off) ; if (w <= 0) break ; off += (size_t) w ; }
+			__real_close (fd) ;
+		}
+		pt_synced [kv.first] = h ;
+	}
+	for (auto it = pt_synced.begin () ; it != pt_synced.end () ; )
+	{	if (!ns.count (it->first)) { std::string rp = pt_root + it->first.substr (4) ; __real_remove (rp.c_str ()) ; it = pt_synced.erase (it) ; }
+		else ++ it ;
+	}
+	in_lib = save ;
+}
+
+void SimOS::pt_wipe ()
+{	pt_synced.clear () ;
+	for (const char *dir : { "/cwd", "/tmp" })
+	{	std::string d = pt_root + dir ;
+		mkdir (pt_root.c_str (), 0755) ; mkdir (d.c_str (), 0755) ;
+		DIR *dp = opendir (d.c_str ()) ;
+		if (!dp) continue ;
+		std::vector<std::string> names ;
+		while (struct dirent *e = readdir (dp)) if (strcmp (e->d_name, ".") && strcmp (e->d_name, "..")) names.push_back (d + "/" + e->d_name) ;
+		closedir (dp) ;
+		for (auto &n : names) __real_remove (n.c_str ()) ;
+	}
+}
+
+void SimOS::pt_sync_in ()
+{	std::set<std::string> seen ;
+	for (const char *dir : { "/cwd", "/tmp" })
+	{	std::string d = pt_root + dir ;
+		DIR *dp = opendir (d.c_str ()) ;
+		if (!dp) continue ;
+		while (struct dirent *e = readdir (dp))
+		{	if (!strcmp (e->d_name, ".") || !strcmp (e->d_name, "..")) continue ;
+			std::string rp = d + "/" + e->d_name, name = std::string ("/sim") + dir + "/" + e->d_name ;
+			int fd = __real_open (rp.c_str (), O_RDONLY, 0) ;
+			if (fd < 0) continue ;
+			std::vector<uint8_t> data ; uint8_t b [65536] ; ssize_t n ;
+			while ((n = __real_read (fd, b, sizeof (b))) > 0) data.insert (data.end (), b, b + n) ;
+			__real_close (fd) ;
+			SimFileP f = file (name, true) ;
+			f->data.swap (data) ;
+			pt_synced [name] = pt_hash_bytes (f->data) ;
+			seen.insert (name) ;
+		}
+		closedir (dp) ;
+	}
+	for (auto it = ns.begin () ; it != ns.end () ; )
+	{	bool mine = !it->second->is_fifo && (it->first.compare (0, 9, "/sim/cwd/") == 0 || it->first.compare (0, 9, "/sim/tmp/") == 0) ;
+		if (mine && !seen.count (it->first)) { pt_synced.erase (it->first) ; it = ns.erase (it) ; } else ++ it ;
+	}
+}
+
 static SimFd *get_fd (int fd)
 {	auto it = g_os->fds.find (fd) ;
 	if (it == g_os->fds.end () || !it->second.is_open) return nullptr ;
@@ -300,6 +381,7 @@ static SimFd *get_fd (int fd)
 extern "C" int __wrap_open (const char *path, int flags, ...)
 {	mode_t mode = 0 ;
 	if (flags & O_CREAT) { va_list ap ; va_start (ap, flags) ; mode = va_arg (ap, mode_t) ; va_end (ap) ; }
+	if (pt_on ()) { std::string rp = pt_path (path) ; return __real_open (rp.c_str (), flags, mode) ; }
 	if (!sim_active () || !(in_lib () || is_sim_path (path)))
 		return __real_open (path, flags, mode) ;
 	std::string p = norm_path (path) ;
@@ -327,7 +409,8 @@ extern "C" int __wrap_open (const char *path, int flags, ...)
 }
 
 extern "C" int __wrap_close (int fd)
-{	if (!sim_active () || !(in_lib () || is_sim_fd (fd)))
+{	if (pt_on ()) return __real_close (fd) ;
+	if (!sim_active () || !(in_lib () || is_sim_fd (fd)))
 		return __real_close (fd) ;
 	Fault *f = in_lib () ? g_os->io_event (IO_CLOSE, false) : nullptr ;
 	auto it = g_os->fds.find (fd) ;
@@ -349,7 +432,8 @@ extern "C" int __wrap_close (int fd)
 }
 
 extern "C" ssize_t __wrap_read (int fd, void *buf, size_t n)
-{	if (!sim_active () || !(in_lib () || is_sim_fd (fd)))
+{	if (pt_on ()) return __real_read (fd, buf, n) ;
+	if (!sim_active () || !(in_lib () || is_sim_fd (fd)))
 		return __real_read (fd, buf, n) ;
 	Fault *f = in_lib () ? g_os->io_event (IO_READ, false) : nullptr ;
 	SimFd *d = get_fd (fd) ;
@@ -395,7 +479,8 @@ extern "C" ssize_t __wrap_read (int fd, void *buf, size_t n)
 }
 
 extern "C" ssize_t __wrap_write (int fd, const void *buf, size_t n)
-{	if (!sim_active () || !(in_lib () || is_sim_fd (fd)))
+{	if (pt_on ()) return __real_write (fd, buf, n) ;
+	if (!sim_active () || !(in_lib () || is_sim_fd (fd)))
 		return __real_write (fd, buf, n) ;
 	Fault *f = in_lib () ? g_os->io_event (IO_WRITE, false) : nullptr ;
 	SimFd *d = get_fd (fd) ;
@@ -434,7 +519,8 @@ extern "C" ssize_t __wrap_write (int fd, const void *buf, size_t n)
 }
 
 extern "C" off_t __wrap_lseek (int fd, off_t off, int whence)
-{	if (!sim_active () || !(in_lib () || is_sim_fd (fd)))
+{	if (pt_on ()) return __real_lseek (fd, off, whence) ;
+	if (!sim_active () || !(in_lib () || is_sim_fd (fd)))
 		return __real_lseek (fd, off, whence) ;
 	Fault *f = in_lib () ? g_os->io_event (IO_SEEK, false) : nullptr ;
 	SimFd *d = get_fd (fd) ;
@@ -451,7 +537,8 @@ extern "C" off_t __wrap_lseek (int fd, off_t off, int whence)
 }
 
 extern "C" int __wrap_fstat (int fd, struct stat *st)
-{	if (!sim_active () || !(in_lib () || is_sim_fd (fd)))
+{	if (pt_on ()) return __real_fstat (fd, st) ;
+	if (!sim_active () || !(in_lib () || is_sim_fd (fd)))
 		return __real_fstat (fd, st) ;
 	Fault *f = in_lib () ? g_os->io_event (IO_LEN, false) : nullptr ;
 	SimFd *d = get_fd (fd) ;
@@ -466,7 +553,8 @@ extern "C" int __wrap_fstat (int fd, struct stat *st)
 }
 
 extern "C" int __wrap_ftruncate (int fd, off_t len)
-{	if (!sim_active () || !(in_lib () || is_sim_fd (fd)))
+{	if (pt_on ()) return __real_ftruncate (fd, len) ;
+	if (!sim_active () || !(in_lib () || is_sim_fd (fd)))
 		return __real_ftruncate (fd, len) ;
 	Fault *f = in_lib () ? g_os->io_event (IO_TRUNC, false) : nullptr ;
 	SimFd *d = get_fd (fd) ;
@@ -479,14 +567,16 @@ extern "C" int __wrap_ftruncate (int fd, off_t len)
 }
 
 extern "C" int __wrap_fsync (int fd)
-{	if (!sim_active () || !(in_lib () || is_sim_fd (fd)))
+{	if (pt_on ()) return __real_fsync (fd) ;
+	if (!sim_active () || !(in_lib () || is_sim_fd (fd)))
 		return __real_fsync (fd) ;
 	if (in_lib ()) g_os->io_event (IO_SYNC, false) ;
 	return get_fd (fd) ? 0 : (errno = EBADF, -1) ;
 }
 
 extern "C" int __wrap_access (const char *path, int mode)
-{	if (!sim_active () || !(in_lib () || is_sim_path (path)))
+{	if (pt_on ()) { std::string rp = pt_path (path) ; return __real_access (rp.c_str (), mode) ; }
+	if (!sim_active () || !(in_lib () || is_sim_path (path)))
 		return __real_access (path, mode) ;
 	std::string p = norm_path (path) ;
 	if (p == "/sim/tmp" || p == "/sim/cwd" || p == "/sim") return 0 ;
@@ -496,7 +586,8 @@ extern "C" int __wrap_access (const char *path, int mode)
 }
 
 extern "C" int __wrap_remove (const char *path)
-{	if (!sim_active () || !(in_lib () || is_sim_path (path)))
+{	if (pt_on ()) { std::string rp = pt_path (path) ; return __real_remove (rp.c_str ()) ; }
+	if (!sim_active () || !(in_lib () || is_sim_path (path)))
 		return __real_remove (path) ;
 	std::string p = norm_path (path) ;
 	auto it = g_os->ns.find (p) ;
@@ -546,7 +637,8 @@ static int ck_close (void *c)
 }
 
 extern "C" FILE *__wrap_fopen (const char *path, const char *mode)
-{	if (!sim_active () || !(in_lib () || is_sim_path (path)))
+{	if (pt_on ()) { std::string rp = pt_path (path) ; return __real_fopen (rp.c_str (), mode) ; }
+	if (!sim_active () || !(in_lib () || is_sim_path (path)))
 		return __real_fopen (path, mode) ;
 	std::string p = norm_path (path) ;
 	Fault *f = in_lib () ? g_os->io_event (IO_OPEN, false) : nullptr ;
